@@ -64,8 +64,58 @@ def fn_slices(tier):
     return sl
 
 
-OTHER_FOR = {}
+def mod_slices(tier):
+    big = tier != 'quick'
+    sl = []
+    base_fixed = [(r'mod\.attrs$', 'len=0'), (r'mod\.vis$', 'inherited'), (r'\.sig\.const$', 'absent'), (r'\.sig\.unsafe$', 'absent'), (r'\.sig\.abi$', 'None'),
+                  (r'\.generics\.where$', 'None'), (r'inputs\[0\]\.pat$', 'deps'), (r'inputs\[[1-9]\]\.pat$', 'ident'), (r'inputs\[\d\]\.attrs$', 'len=0'),
+                  (r'\.sig\.output$', '()'), (r'\.lt$', 'None')]
+    # module items: which become methods, order, several fns contributing bounds (C08 C01 C04 C02 C13)
+    sl.append(dict(name='mod/items', mode='mod', opts_only=('no_deps',), max_items=3 if big else 2,
+                   bounds=dict(max_params=1, max_generics=1, max_where=0, max_deps_bounds=2, max_wrappers=1, max_fn_attrs=0, max_param_attrs=0, pat_depth=0,
+                               deps_kinds=('path:D', 'path:C', 'impl', '&'), vis_alts=('inherited', 'pub', 'pub_crate')),
+                   fixed=base_fixed + [(r'items\[\d\]\.attrs$', 'len=0'), (r'\.sig\.async$', 'absent'), (r'\.sig\.inputs$', 'len=2'), (r'inputs\[0\]$', 'typed')]))
+    # visibilities (C13 C08)
+    sl.append(dict(name='mod/visibility', mode='mod', opts_only=(), max_items=1,
+                   bounds=dict(max_params=0, max_generics=0, max_where=0, max_deps_bounds=1, max_wrappers=1, max_fn_attrs=0, max_param_attrs=0, pat_depth=0,
+                               vis_alts=('inherited', 'pub', 'pub_crate', 'pub_super', 'pub_in')),
+                   fixed=[f for f in base_fixed if f[0] != r'mod\.vis$'] + [(r'items\[\d\]\.attrs$', 'len=0'), (r'\.sig\.async$', 'absent'), (r'\.sig\.inputs$', 'len=1'), (r'inputs\[0\]$', 'typed'),
+                                       (r'inputs\[0\]\.ty$', '&'), (r'inputs\[0\]\.ty\.&$', 'impl'), (r'\.impl$', 'len=1'), (r'\.generics\.params$', 'len=0')]))
+    # attributes on the module and on its fns, async, options (C18 C12 C10 C11)
+    sl.append(dict(name='mod/attrs-async-opts', mode='mod', max_items=2,
+                   bounds=dict(max_params=1, max_generics=0, max_where=0, max_deps_bounds=1, max_wrappers=1, max_fn_attrs=1, max_param_attrs=0, pat_depth=0,
+                               deps_kinds=('impl', '&', 'path:C'), vis_alts=('inherited', 'pub')),
+                   opts_only=('unimock', 'mock_api', 'mockall', 'export', 'future_send'),
+                   fixed=base_fixed + [(r'\.sig\.inputs$', 'len=2'), (r'inputs\[0\]$', 'typed'), (r'\.impl$', 'len=1'), (r'attr\.vis$', 'pub')]))
+    return sl
+
+
+def impl_slices(tier):
+    big = tier != 'quick'
+    sl = []
+    base_fixed = [(r'\.sig\.const$', 'absent'), (r'\.sig\.unsafe$', 'absent'), (r'\.sig\.abi$', 'None'), (r'\.generics\.where$', 'None'),
+                  (r'inputs\[0\]\.pat$', 'deps'), (r'inputs\[[1-9]\]\.pat$', 'ident'), (r'inputs\[\d\]\.attrs$', 'len=0'), (r'\.sig\.output$', '()'), (r'\.lt$', 'None')]
+    sl.append(dict(name='impl/items', mode='impl', max_items=3 if big else 2,
+                   bounds=dict(max_params=1, max_generics=1, max_where=0, max_deps_bounds=2, max_wrappers=1, max_fn_attrs=1, max_param_attrs=0, pat_depth=0,
+                               deps_kinds=('&',), deps_inner_kinds=('path:D', 'path:C', 'impl'), vis_alts=('inherited', 'pub')),
+                   fixed=base_fixed + [(r'impl\.attrs$', 'len=0'), (r'\.sig\.inputs$', 'len=2'), (r'inputs\[0\]$', 'typed')]))
+    sl.append(dict(name='impl/attrs-async', mode='impl', max_items=1,
+                   bounds=dict(max_params=1, max_generics=0, max_where=0, max_deps_bounds=1, max_wrappers=1, max_fn_attrs=2, max_param_attrs=1, pat_depth=1,
+                               deps_kinds=('&',), deps_inner_kinds=('impl', 'path:D'), vis_alts=('inherited', 'pub'), qualifiers=True),
+                   fixed=[(r'\.sig\.const$', 'absent'), (r'\.sig\.abi$', 'None'), (r'\.generics\.where$', 'None'), (r'\.generics\.params$', 'len=0'),
+                          (r'inputs\[0\]\.pat$', 'deps'), (r'\.lt$', 'None'), (r'\.impl$', 'len=1'), (r'inputs\[0\]$', 'typed'), (r'items\[\d\]\.attrs$', 'len=0')]))
+    return sl
+
+
+OTHER_FOR = {
+    'C01': ['mod/items'], 'C02': ['mod/items', 'mod/visibility', 'impl/items', 'impl/attrs-async'], 'C03': ['mod/items', 'impl/items'],
+    'C04': ['mod/items', 'impl/items'], 'C07': ['impl/items', 'impl/attrs-async'], 'C08': ['mod/items', 'mod/visibility', 'impl/items'],
+    'C10': ['mod/attrs-async-opts'], 'C11': ['mod/attrs-async-opts'], 'C12': ['mod/attrs-async-opts', 'impl/attrs-async'],
+    'C13': ['mod/visibility', 'mod/items'], 'C14': ['mod/attrs-async-opts', 'impl/items'], 'C15': ['mod/items', 'impl/items', 'impl/attrs-async', 'mod/attrs-async-opts'],
+    'C16': ['impl/attrs-async'], 'C18': ['mod/attrs-async-opts', 'impl/attrs-async', 'impl/items'], 'C19': ['mod/attrs-async-opts', 'impl/items', 'impl/attrs-async'],
+    'C20': ['mod/items', 'impl/items'],
+}
 
 
 def all_slices(tier):
-    return fn_slices(tier)
+    return fn_slices(tier) + mod_slices(tier) + impl_slices(tier)
